@@ -31,10 +31,12 @@ Example selector_keyword_label :
 Proof. vm_compute. reflexivity. Qed.
 
 (** pipelines over the stage fragment {line filters with a string or ip(), pattern, line_format, unpack, decolorize, drop / keep
-    with label names, distinct}: any number of stages in any order is parsed into exactly those stages in order, consuming
-    exactly their tokens.  [chain_ok] asks each stage to be well-formed (regex filters compile, name lists non-empty) and to be
-    followed by something it cannot absorb: a drop / keep list must not be followed by `!=` / `!~` (the grammar reads
-    `| drop a != "x"` as a drop matcher), and the pipeline ends at a token that starts neither a filter nor a stage. *)
+    with label names, distinct, json / logfmt with or without a label list, label_format with renames and templates}: any
+    number of stages in any order is parsed into exactly those stages in order, consuming exactly their tokens.  [chain_ok]
+    asks each stage to be well-formed (regex filters compile, name lists non-empty, label_format targets pairwise distinct)
+    and to be followed by something it cannot absorb: a drop / keep list must not be followed by `!=` / `!~` (the grammar
+    reads `| drop a != "x"` as a drop matcher), a json / logfmt list not by an identifier, comma or `=`, and the pipeline ends
+    at a token that starts neither a filter nor a stage. *)
 Theorem parse_print_pipeline_partial :
   forall (anch : bytes -> bool) (re_names : bytes -> option (list bytes)) (sts : list stage) (fuel : nat) (au : bool) (acc : list stage) (p r : list token),
   chain_ok anch re_names sts r -> (fuel_needed sts < fuel)%nat ->
@@ -46,16 +48,18 @@ Print Assumptions parse_print_pipeline_partial.
 Example pipeline_roundtrip_example :
   let anch := fun _ : bytes => true in
   let rn := fun _ : bytes => Some (@nil bytes) in
-  let sts := [SLine OpRe ["x"%byte] false; SDrop [["a"%byte]; ["b"%byte]] []; SLine OpEq ["1"%byte] true; SDistinct [["c"%byte]]; SUnpack; SLine OpNotEq ["y"%byte] false] in
+  let sts := [SLine OpRe ["x"%byte] false; SDrop [["a"%byte]; ["b"%byte]] []; SLine OpEq ["1"%byte] true; SDistinct [["c"%byte]]; SUnpack; SLine OpNotEq ["y"%byte] false;
+              SJson [["k"%byte]; ["l"%byte]] []; SLogfmt [] []; SLabelFormat [(["s"%byte], ["d"%byte])] [(["e"%byte], ["t"%byte]); (["f"%byte], [])]; SDecolorize] in
   chain_ok anch rn sts [] /\
-  match parse_pipeline 20 false [] {| prev := []; rest := print_stages anch rn sts |} with POk r _ => r = sts | _ => False end.
+  match parse_pipeline 40 false [] {| prev := []; rest := print_stages anch rn sts |} with POk r _ => r = sts | _ => False end.
 Proof.
   split; [|vm_compute; reflexivity].
   cbn. unfold follows_ok, no_comma. cbn. repeat match goal with
        | |- _ /\ _ => split
        | |- forall _, _ => intro
        | H : _ :: _ = _ :: _ |- _ => injection H as <- <-
-       end; try reflexivity; try discriminate; try (left; reflexivity); exact I.
+       end; try reflexivity; try discriminate; try (left; reflexivity); try (left; discriminate);
+       try (repeat constructor; cbn; intuition discriminate); try exact I.
 Qed.
 
 (** static rules *)
